@@ -238,7 +238,7 @@ def run(chk, prog, tier):
     sym_rp = Sym(prog, rp, templates={"partition": {v1: 1, v2: 1, rain_formal: -1}})
     rets = sym_rp.at_return()
     for n, st in rets:
-        t = st.tmpl["partition"]
+        t = sym_rp.template_value("partition", st)
         construct = f"{v1} + {v2} - {rain_formal} == 0 at return"
         if t is not None and A.equal(t, {}):
             chk.ok("C02.a", f"{rp.module}:{rp.qualname}", construct, "template value 0 on every path")
